@@ -36,7 +36,7 @@ def tier_cfg(pid, tier):
     if tier == "thorough":
         c = c.replace("Lens = {0, 1, 2, 255, 256, 258}", "Lens = {0, 1, 2, 3, 127, 128, 255, 256, 258, 1000, 4660, 40000}") \
              .replace("PadLens = {0, 1, 3}", "PadLens = {0, 1, 2, 3}") \
-             .replace("ArrLens = {0, 1, 2, 3}", "ArrLens = {0, 1, 2, 3, 7}") \
+             .replace("ArrLens = {0, 1, 2, 3, 127, 128}", "ArrLens = {0, 1, 2, 3, 7, 64, 127, 128, 129}") \
              .replace("DialectCounts = {0, 1, 2, 3, 4, 13}", "DialectCounts = {0, 1, 2, 3, 4, 5, 6, 7, 8, 9, 10, 11, 12, 13}")
         if "Lens = {0, 1, 2, 3, 127" not in c:
             raise vlib.Infra("thorough constants could not be substituted into the cfg")
